@@ -94,7 +94,7 @@ type MemDS struct {
 	// OnWrite, if set, is called (outside the lock) after every successful durable write.
 	OnWrite func(WriteRec)
 	// Yield, if set, is called at the start of every call (used to widen interleavings).
-	Yield func()
+	Yield   func()
 	KeepRaw bool
 }
 
